@@ -66,11 +66,16 @@ def apply_impl(s, op):
         U = s.potential[T[op[1]], T[op[2]]]
         if U is None: return False
         U.sigma = op[3]
+    elif k == 'omegaeval':
+        # the user evaluates the System's own omega object on the current grid (to plot it, as the tutorials do): no edit at all
+        O = s.omega[T[op[1]], T[op[2]]]
+        if O is None or s.domain is None: return False
+        with np.errstate(all='ignore'): O.calculate(s.domain.k)
     return True
 
 def model_line(op):
     k = op[0]
-    if k in ('potall', 'cloall'): return None
+    if k in ('potall', 'cloall', 'omegaeval'): return None
     if k == 'domset': return 'DOMSET'
     if k == 'kT': return 'w.op kT ' + f2h(op[1])
     if k == 'dom': return 'w.op dom none' if op[1] is None else 'w.op dom %d %s' % (op[1], f2h(op[2]))
@@ -122,6 +127,16 @@ class CostCounter:
         return self
     def __exit__(self, *a):
         PRISM_mod.PRISM.cost = self.orig
+
+def cost_outcome(p, x0):
+    """what an existing PRISM object computes for a fixed trial input (bit for bit), or the exception it raises"""
+    try:
+        with warnings.catch_warnings():
+            warnings.simplefilter('ignore')
+            with np.errstate(all='ignore'):
+                return np.asarray(p.cost(x0.copy()), dtype=float).tobytes()
+    except Exception as e:
+        return 'raised ' + type(e).__name__
 
 def initial_ops(sd):
     """the op list that builds the System of a description from scratch"""
@@ -188,8 +203,9 @@ def suite_history(ctx, case):
                             pf2 = fresh.solve(method=op[1], options={'disp': False})
                     ctx.pred('history', sub, bool(np.allclose(p.totalCorr.data, pf2.totalCorr.data, rtol=1e-7, atol=1e-9)),
                              'solve on the edited System differs from solve on a fresh System with the same parameters', key='C16:sweep-fresh')
+                x0 = 0.05 * np.sin(1.0 + 0.37 * np.arange(p.sys.rank * p.sys.rank * p.sys.domain.length))
                 frozen.append((G.wiring_tok(p), p.omega.data.copy(), float(p.sys.kT), [p.sys.density[t] for t in p.sys.types], [p.sys.diameter[t] for t in p.sys.types],
-                               (p.sys.domain.length, float(p.sys.domain.dr))))
+                               (p.sys.domain.length, float(p.sys.domain.dr)), x0, cost_outcome(p, x0) if op[0] == 'create' else None))
         else:
             ok = apply_impl(s, op)
             if op[0] in ('potall', 'cloall'):
@@ -198,6 +214,9 @@ def suite_history(ctx, case):
                     ml = drv.ask(model_line(['pot' if op[0] == 'potall' else 'clo', i, j, op[1]]))
             elif op[0] == 'domset':
                 ml = drv.ask('w.op dom %d %s' % (sd['dom'][0], f2h(op[1]))) if (ok and sd.get('dom') is not None) else 'ERR rejected'
+            elif op[0] == 'omegaeval':
+                ml = 'ok' if ok else 'ERR rejected'                      # not an edit: the model's System is untouched
+
             else:
                 ml = drv.ask(model_line(op))
             ctx.corr('history', sub, ml, 'ok' if ok else 'ERR rejected', what='edit accepted')
@@ -208,8 +227,11 @@ def suite_history(ctx, case):
         # later edits must not reach existing PRISM objects
         for k, (p, fz) in enumerate(zip(prisms, frozen)):
             now = (G.wiring_tok(p), p.omega.data, float(p.sys.kT), [p.sys.density[t] for t in p.sys.types], [p.sys.diameter[t] for t in p.sys.types], (p.sys.domain.length, float(p.sys.domain.dr)))
-            same = now[0] == fz[0] and np.array_equal(now[1], fz[1]) and now[2:] == fz[2:]
+            same = now[0] == fz[0] and np.array_equal(now[1], fz[1]) and now[2:] == fz[2:6]
             ctx.pred('history', sub, same, 'PRISM object #%d changed after a later System operation (%s)' % (k, op[0]), key='C16:prism-isolated')
+            if fz[7] is not None and op[0] not in ('create', 'solve'):
+                ctx.pred('history', sub, cost_outcome(p, fz[6]) == fz[7], 'PRISM object #%d evaluates its self-consistency function differently after a later System operation (%s)' % (k, op[0]),
+                         key='C16:prism-isolated')
 
 def suite_missing(ctx, case):
     """a full description with some items removed"""
@@ -231,7 +253,8 @@ SUITES = {'history': suite_history, 'missing': suite_missing}
 
 def gen_edit(rng, sd_hint, n, L):
     dr = sd_hint['dom'][1]
-    k = rng.choice(['dens', 'diam', 'diam', 'kT', 'pot', 'pot', 'clo', 'om', 'dom', 'potsigma', 'potsigma', 'unset', 'potall', 'cloall'])
+    k = rng.choice(['dens', 'diam', 'diam', 'kT', 'pot', 'pot', 'clo', 'om', 'dom', 'potsigma', 'potsigma', 'unset', 'potall', 'cloall', 'omegaeval', 'omegaeval'])
+    if k == 'omegaeval': i = rng.randrange(n); return ['omegaeval', i, rng.randrange(i, n)]
     if k == 'potall': return ['potall', G.gen_pot(rng, 1.0, True, explicit_sigma=0.0)]
     if k == 'cloall':
         c = rng.choice(['py', 'hnc', 'msa', 'ms']); return ['cloall', [c, True if c in ('msa', 'ms') else rng.random() < 0.5]]
